@@ -106,15 +106,32 @@ where
 
     loop {
         match reader.read_event_into(&mut buf) {
+            #[cfg(feature = "xsg_verif")]
+            ev if crate::verif::observe(&ev, &root) => unreachable!(),
             Ok(Event::Start(e)) => {
                 let (children_count, check_optional_tags) =
                     count_children(root.get_child(&to_str(e.name())?));
+                #[cfg(feature = "xsg_verif")]
+                crate::verif::emit(|| {
+                    let mut counts: Vec<(String, u32)> =
+                        children_count.iter().map(|(k, v)| (k.clone(), *v)).collect();
+                    counts.sort();
+                    crate::verif::Step::Snap {
+                        name: String::from_utf8_lossy(e.name().as_ref()).into_owned(),
+                        counts,
+                        check: check_optional_tags,
+                    }
+                });
 
                 root = parse_tag::<R>(root, &e, &mut known_elements, Some(reader))?;
 
                 if check_optional_tags {
                     root = tag_optional_children(root, e, children_count)?;
                 }
+                #[cfg(feature = "xsg_verif")]
+                crate::verif::emit(|| crate::verif::Step::Closed {
+                    parent: root.verif_view(),
+                });
             }
             Ok(Event::Text(e)) => root.text = Some(to_str(e.into_inner())?),
             Ok(Event::CData(e)) => root.text = Some(to_str(e.into_inner())?),
@@ -122,6 +139,10 @@ where
                 // we don't pass the reader to parse_tag here, as we do not want to iterate into an empty element
                 root = parse_tag::<R>(root, &e, &mut known_elements, None)?;
                 root = tag_optional_children(root, e, HashMap::new())?;
+                #[cfg(feature = "xsg_verif")]
+                crate::verif::emit(|| crate::verif::Step::Closed {
+                    parent: root.verif_view(),
+                });
             }
             Ok(Event::Eof | Event::End(_)) => return Ok(root),
             Ok(Event::Comment(_)) => (),
@@ -222,6 +243,14 @@ where
             }
 
             new_child.increment();
+            #[cfg(feature = "xsg_verif")]
+            crate::verif::emit(|| crate::verif::Step::Enter {
+                name: name.clone(),
+                attrs: crate::verif::attr_keys(e),
+                empty: reader.is_none(),
+                existed: true,
+                child: new_child.verif_view(),
+            });
 
             if let Some(reader) = reader {
                 new_child = build_struct(reader, new_child)?;
@@ -244,6 +273,14 @@ where
             if known_elements.contains(&to_str(e.name())?) {
                 child.set_multiple();
             }
+            #[cfg(feature = "xsg_verif")]
+            crate::verif::emit(|| crate::verif::Step::Enter {
+                name: child.name.clone(),
+                attrs: crate::verif::attr_keys(e),
+                empty: reader.is_none(),
+                existed: false,
+                child: child.verif_view(),
+            });
 
             if let Some(reader) = reader {
                 child = build_struct(reader, child)?;
